@@ -162,6 +162,22 @@ def build(inp) -> Case:
         c0k = [v for k in keep for v in c0[4 * k:4 * k + 4]]
         lines.append(cmline(apos, aneg, ep, en, sc, ec, ats, ca))
         lines.append(line("rel", kind="same", a=il(c0k), b=il(ca)))
+    # ---- integer-dtype objects (both classes int64) at NON-INTEGER thresholds of both signs: negation with the flipped
+    # score_class keeps every matrix at the negated threshold, and an integer shift keeps it at the shifted threshold
+    if pos and neg and not inp.get("fmax") and inp.get("gsalt", 0) % 4 == 0:
+        pi_, ni_ = [int(round(x)) for x in pos], [int(round(x)) for x in neg]
+        sh_ = 10 + inp.get("gsalt", 0) % 7
+        oi = Scores(np.array(pi_, dtype=np.int64), np.array(ni_, dtype=np.int64), nb_easy_pos=ep, nb_easy_neg=en, score_class=sc, equal_class=ec)
+        oin = Scores(-np.array(pi_, dtype=np.int64), -np.array(ni_, dtype=np.int64), nb_easy_pos=ep, nb_easy_neg=en,
+                     score_class=flip[sc], equal_class=ec)
+        ois = Scores(np.array(pi_, dtype=np.int64) - sh_, np.array(ni_, dtype=np.int64) - sh_, nb_easy_pos=ep, nb_easy_neg=en,
+                     score_class=sc, equal_class=ec)
+        vals_ = sorted(set(pi_ + ni_))[:6]
+        tsi = [float(v) + d for v in vals_ for d in (-0.5, 0.0, 0.25)] + [-abs(float(v)) - 0.5 for v in vals_[:3]]
+        ci0, ci1, ci2 = _cells(oi, tsi), _cells(oin, [-t for t in tsi]), _cells(ois, [t - sh_ for t in tsi])
+        lines.append(cmline([float(v) for v in pi_], [float(v) for v in ni_], ep, en, sc, ec, tsi, ci0))
+        lines.append(line("rel", kind="same", a=il(ci0), b=il(ci1)))
+        lines.append(line("rel", kind="same", a=il(ci0), b=il(ci2)))
     # ---- thresholds, EER, AUC: relations between two real runs
     scale = max([1.0] + [abs(x) for x in pos + neg])
     # integer-dtype objects and the lower/higher methods under an affine map (a, b integers so that
@@ -184,6 +200,14 @@ def build(inp) -> Case:
                     if abs(t1 - (ai * t0 + bi)) > ai * _ulps(t0) + _ulps(t1) + 1e-12 * scale * ai:
                         pre.append(Issue("PROPFAIL", "affine-threshold", f"int scores, threshold_at_{metric}({r},{meth}): original {t0}, "
                                          f"image under {ai}*s+{bi} gives {t1}, expected {ai*t0+bi}", f"thr/{metric}/affine-int"))
+    if pos and neg and inp.get("gsalt", 0) % 3 == 0:
+        # ASYMMETRIC call histories: the three objects have been asked different things before (the relations are between
+        # objects, whatever each was asked earlier)
+        for o_, calls_ in ((s, (("threshold_at_topr", 0.4), ("threshold_at_tonr", 0.6))),
+                           (sa, (("threshold_at_fnr", 0.2), ("eer", None), ("threshold_at_tnr", 0.7))),
+                           (sn, (("threshold_at_fpr", 0.3),))):
+            for nm_, a_ in calls_:
+                common.call(getattr(o_, nm_), *(() if a_ is None else (a_,)))
     for metric in gen.METRICS:
         arr_empty = (len(pos) == 0 and metric in ("tpr", "fnr")) or (len(neg) == 0 and metric in ("tnr", "fpr")) \
             or (len(pos) + len(neg) == 0)
